@@ -6,8 +6,8 @@ From J5V.model Require Import RulesDecl RulesWrite RulesRead RulesEnum RulesSpec
 From J5V.gen Require Id62Gen RulesGen.
 From J5V.model Require Import ProtoPrint ProtoPrintFile ProtoParseFile.
 From J5V.proofs Require Import RulesProofs RulesReadProofs RulesGenProofs RulesReadGenProofs.
-From J5V.model Require Import RulesView RulesTextModel ProtoPrintFileWf RulesNested.
-From J5V.proofs Require Import ProtoPrintFileSemProofs ProtoPrintFileFullProofs RulesViewProofs RulesTextProofs RulesNestedProofs.
+From J5V.model Require Import RulesView RulesTextModel ProtoPrintFileWf RulesNested RulesInlineEnum.
+From J5V.proofs Require Import ProtoPrintFileSemProofs ProtoPrintFileFullProofs RulesViewProofs RulesTextProofs RulesNestedProofs RulesInlineEnumProofs RulesEnumExactProofs.
 Import ListNotations.
 Local Open Scope N_scope.
 
@@ -137,6 +137,43 @@ Proof.
   split; [vm_compute; reflexivity|]. split; vm_compute; reflexivity.
 Qed.
 
+(* ---- enums declared inline in a field (model/RulesInlineEnum.v): the nested enum is named as
+   the declaration states or ToCamel(field name), its prefix is the stated one or
+   ToScreamingSnake(name) + "_"; the field's in / not-in rules are over that enum
+   ([env_of_decl]); the reflector knows the enum as the schema <Outer>_<Name>. For every
+   field in rt_ok over an inline enum in the enum fragment: *)
+Theorem C04_inline_enum : forall here idx d i c,
+  inline_enum_rt d i = true -> write_inline_enum idx d i = Ok c ->
+  read_inline_enum (env_of_decl (ie_decl (p_name d) i)) here c = Ok (norm_inline_enum here idx d i).
+Proof. exact c04_inline_enum. Qed.
+Print Assumptions C04_inline_enum.
+
+(* ... exactly: a compiled inline-enum field reads back as declared iff the field lies in rt_ok
+   and the enum in the enum fragment *)
+Theorem C04_inline_enum_exact : forall here idx d i c,
+  write_inline_enum idx d i = Ok c ->
+  (read_inline_enum (env_of_decl (ie_decl (p_name d) i)) here c = Ok (norm_inline_enum here idx d i)
+   <-> inline_enum_rt d i = true).
+Proof. exact c04_inline_enum_exact. Qed.
+Print Assumptions C04_inline_enum_exact.
+
+(* non-vacuity: Foo { field x4Y array:enum { option UNSPECIFIED {| nothing}  option RED
+   items.enum.rules.notIn = ["RED"] } } — the enum is Foo_X4Y with prefix X_4_Y_, options
+   UNSPECIFIED = 0 (described), RED = 1; the rule reads back as ["RED"] *)
+Example C04_inline_enum_example :
+  let d := P [120;52;89] false false
+             (PArray None None (TEnum (Some (ER [] [[82;69;68]])) None)) [] in
+  let i := IE None None [] [([85;78;83;80;69;67;73;70;73;69;68], [110;111;116;104;105;110;103], []); ([82;69;68], [], [])] [] in
+  inline_enum_rt d i = true /\
+  exists c, write_inline_enum 1 d i = Ok c /\
+    read_inline_enum (env_of_decl (ie_decl (p_name d) i)) [[70;111;111]] c = Ok (norm_inline_enum [[70;111;111]] 1 d i) /\
+    fst (snd (norm_inline_enum [[70;111;111]] 1 d i)) = [70;111;111;95;88;52;89] /\
+    re_prefix (snd (snd (norm_inline_enum [[70;111;111]] 1 d i))) = [88;95;52;95;89;95].
+Proof.
+  split; [vm_compute; reflexivity|]. eexists. split; [vm_compute; reflexivity|].
+  split; [vm_compute; reflexivity|]. split; vm_compute; reflexivity.
+Qed.
+
 (* second clause (the printed .proto text): reflection sees a field only through
    [c04_proj] (name, number, kind, label, optional keyword, the three annotations,
    the key annotation, the comment). If print + parse preserves that view of
@@ -244,6 +281,13 @@ Print Assumptions C04_norm_int_meaning.
 Theorem C04_enum : forall e, enum_rt e = true -> read_enum (write_enum e) = Ok (norm_enum e).
 Proof. exact c04_enum. Qed.
 Print Assumptions C04_enum.
+
+(* the enum fragment is exact: an enum declaration reads back as declared iff every
+   description survives the reader's cleaner and an explicit zero option is spelled the
+   standard way *)
+Theorem C04_enum_exact : forall e, read_enum (write_enum e) = Ok (norm_enum e) <-> enum_rt e = true.
+Proof. exact c04_enum_exact. Qed.
+Print Assumptions C04_enum_exact.
 
 (* non-vacuity: an enum with an explicit zero option, a prefixed and a short option
    name, option info and an info field lies in the fragment and reads back as declared *)
